@@ -92,7 +92,7 @@ func runC19(c *Check) {
 		ok := true
 		for _, ex := range sum.exits {
 			for k, v := range ex.delta {
-				if isHO && k.Name() == ho.lock {
+				if isHO && k == c.P.Field("storage", "TxRepository", ho.lock) { // by identity: the field may have been renamed
 					want := ho.delta
 					if ho.when == "err==nil" && ex.errNil == 0 {
 						want = 0
@@ -567,6 +567,10 @@ func runC19(c *Check) {
 							okExit, kind = true, "thread counter"
 						}
 					}
+					// the stop flags read directly (isStopped()/isStopping() written in place)
+					if f := anyFieldLoad(x); f != nil && (f == c.P.Field("spynode", "Node", "stopping") || f == c.P.Field("spynode", "Node", "stopped")) {
+						okExit, kind = true, "stop flag"
+					}
 				}
 			}
 			// sleepUntilStop itself: bounded loop (counts to n)
@@ -591,13 +595,25 @@ func runC19(c *Check) {
 			}
 		}
 		nWait := 0
+		// the wait points: isStopped() in a loop, or the stopped flag read in a loop (written in place)
+		var waits []ssa.Instruction
 		for _, s := range callsTo(fn, "(*spynode.Node).isStopped") {
-			if loopHeaderOf(s.Instr.Block()) == nil {
+			waits = append(waits, s.Instr)
+		}
+		for _, b := range fn.Blocks {
+			for _, in := range b.Instrs {
+				if u, ok := in.(*ssa.UnOp); ok && fStopped != nil && loadOfField(u, fStopped) != nil {
+					waits = append(waits, u)
+				}
+			}
+		}
+		for _, wi := range waits {
+			if loopHeaderOf(wi.Block()) == nil {
 				continue
 			}
 			nWait++
-			ok, w := alwaysPrecededBy(s.Instr, hs)
-			c.Decide(ok, "R9", "spynode.(*Node).Stop#hard-stop-set-before-waiting", s.Pos(), "must-pass-through", w,
+			ok, w := alwaysPrecededBy(wi, hs)
+			c.Decide(ok, "R9", "spynode.(*Node).Stop#hard-stop-set-before-waiting", wi.Pos(), "must-pass-through", w,
 				"Stop marks the stop as final (hardStop) on every path before it waits for the run loop", "Stop can wait for the run loop without having marked the stop as final: if a restart was already in progress the run loop reconnects and Stop waits forever")
 		}
 		c.Min("R9", "wait loops in Stop", nWait, 1)
@@ -613,11 +629,11 @@ func runC19(c *Check) {
 				}
 			}
 		}
-		for _, s := range callsTo(fn, "(*spynode.Node).isStopped") {
-			if loopHeaderOf(s.Instr.Block()) != nil {
+		for _, wi := range waits {
+			if loopHeaderOf(wi.Block()) != nil {
 				already := boolEdge(func(v ssa.Value) bool { return anyFieldLoad(v) == fStopping }, true)
-				ok, w := mustPassOrHappen(s.Instr, already, rq)
-				c.Decide(ok, "R9", "spynode.(*Node).Stop#stop-requested-before-waiting", s.Pos(), "must-pass-through", w,
+				ok, w := mustPassOrHappen(wi, already, rq)
+				c.Decide(ok, "R9", "spynode.(*Node).Stop#stop-requested-before-waiting", wi.Pos(), "must-pass-through", w,
 					"Stop requests the stop before it waits", "Stop can wait without having requested the stop")
 			}
 		}
